@@ -1234,3 +1234,99 @@ def a057_main():
         logger.info(page_parser.decoder.decoding_summary())
     if ids_to_process:
         logger.info(f'AVERAGE PROCESSING TIME {(time.time() - t_start) / len(ids_to_process)}')
+
+
+# reference for pero_ocr.core.arabic_helper:ArabicHelper.__init__
+def a058_ArabicHelper___init__(self):
+    self._reshaper = arabic_reshaper.ArabicReshaper()
+    self._backward_mapping = self._create_backward_mapping()
+    self._arabic_chars_pattern = '^([\u0600-ۿ]|[ݐ-ݿ]|[ﭐ-﯁]|[ﯓ-﴿]|[ﵐ-ﶏ]|                                     [ﶒ-ﷇ]|[ﹰ-ﻼ]|[ﷰ-﷽])+$'
+    self.LETTER = 0
+    self.FORM = 1
+    self.NOT_SUPPORTED = -1
+    self.ISOLATED = 0
+    self.INITIAL = 1
+    self.MEDIAL = 2
+    self.FINAL = 3
+    self.forward_mapping = {}
+    self.forward_mapping['ء'] = ['ﺀ', '', '', '']
+    self.forward_mapping['آ'] = ['ﺁ', '', '', 'ﺂ']
+    self.forward_mapping['أ'] = ['ﺃ', '', '', 'ﺄ']
+    self.forward_mapping['ؤ'] = ['ﺅ', '', '', 'ﺆ']
+    self.forward_mapping['إ'] = ['ﺇ', '', '', 'ﺈ']
+    self.forward_mapping['ئ'] = ['ﺉ', 'ﺋ', 'ﺌ', 'ﺊ']
+    self.forward_mapping['ا'] = ['ﺍ', '', '', 'ﺎ']
+    self.forward_mapping['ب'] = ['ﺏ', 'ﺑ', 'ﺒ', 'ﺐ']
+    self.forward_mapping['ة'] = ['ﺓ', '', '', 'ﺔ']
+    self.forward_mapping['ت'] = ['ﺕ', 'ﺗ', 'ﺘ', 'ﺖ']
+    self.forward_mapping['ث'] = ['ﺙ', 'ﺛ', 'ﺜ', 'ﺚ']
+    self.forward_mapping['ج'] = ['ﺝ', 'ﺟ', 'ﺠ', 'ﺞ']
+    self.forward_mapping['ح'] = ['ﺡ', 'ﺣ', 'ﺤ', 'ﺢ']
+    self.forward_mapping['خ'] = ['ﺥ', 'ﺧ', 'ﺨ', 'ﺦ']
+    self.forward_mapping['د'] = ['ﺩ', '', '', 'ﺪ']
+    self.forward_mapping['ذ'] = ['ﺫ', '', '', 'ﺬ']
+    self.forward_mapping['ر'] = ['ﺭ', '', '', 'ﺮ']
+    self.forward_mapping['ز'] = ['ﺯ', '', '', 'ﺰ']
+    self.forward_mapping['س'] = ['ﺱ', 'ﺳ', 'ﺴ', 'ﺲ']
+    self.forward_mapping['ش'] = ['ﺵ', 'ﺷ', 'ﺸ', 'ﺶ']
+    self.forward_mapping['ص'] = ['ﺹ', 'ﺻ', 'ﺼ', 'ﺺ']
+    self.forward_mapping['ض'] = ['ﺽ', 'ﺿ', 'ﻀ', 'ﺾ']
+    self.forward_mapping['ط'] = ['ﻁ', 'ﻃ', 'ﻄ', 'ﻂ']
+    self.forward_mapping['ظ'] = ['ﻅ', 'ﻇ', 'ﻈ', 'ﻆ']
+    self.forward_mapping['ع'] = ['ﻉ', 'ﻋ', 'ﻌ', 'ﻊ']
+    self.forward_mapping['غ'] = ['ﻍ', 'ﻏ', 'ﻐ', 'ﻎ']
+    self.forward_mapping['ـ'] = ['ـ', 'ـ', 'ـ', 'ـ']
+    self.forward_mapping['ف'] = ['ﻑ', 'ﻓ', 'ﻔ', 'ﻒ']
+    self.forward_mapping['ق'] = ['ﻕ', 'ﻗ', 'ﻘ', 'ﻖ']
+    self.forward_mapping['ك'] = ['ﻙ', 'ﻛ', 'ﻜ', 'ﻚ']
+    self.forward_mapping['ل'] = ['ﻝ', 'ﻟ', 'ﻠ', 'ﻞ']
+    self.forward_mapping['م'] = ['ﻡ', 'ﻣ', 'ﻤ', 'ﻢ']
+    self.forward_mapping['ن'] = ['ﻥ', 'ﻧ', 'ﻨ', 'ﻦ']
+    self.forward_mapping['ه'] = ['ﻩ', 'ﻫ', 'ﻬ', 'ﻪ']
+    self.forward_mapping['و'] = ['ﻭ', '', '', 'ﻮ']
+    self.forward_mapping['ى'] = ['ﻯ', 'ﯨ', 'ﯩ', 'ﻰ']
+    self.forward_mapping['ي'] = ['ﻱ', 'ﻳ', 'ﻴ', 'ﻲ']
+    self.forward_mapping['ٱ'] = ['ﭐ', '', '', 'ﭑ']
+    self.forward_mapping['ٷ'] = ['ﯝ', '', '', '']
+    self.forward_mapping['ٹ'] = ['ﭦ', 'ﭨ', 'ﭩ', 'ﭧ']
+    self.forward_mapping['ٺ'] = ['ﭞ', 'ﭠ', 'ﭡ', 'ﭟ']
+    self.forward_mapping['ٻ'] = ['ﭒ', 'ﭔ', 'ﭕ', 'ﭓ']
+    self.forward_mapping['پ'] = ['ﭖ', 'ﭘ', 'ﭙ', 'ﭗ']
+    self.forward_mapping['ٿ'] = ['ﭢ', 'ﭤ', 'ﭥ', 'ﭣ']
+    self.forward_mapping['ڀ'] = ['ﭚ', 'ﭜ', 'ﭝ', 'ﭛ']
+    self.forward_mapping['ڃ'] = ['ﭶ', 'ﭸ', 'ﭹ', 'ﭷ']
+    self.forward_mapping['ڄ'] = ['ﭲ', 'ﭴ', 'ﭵ', 'ﭳ']
+    self.forward_mapping['چ'] = ['ﭺ', 'ﭼ', 'ﭽ', 'ﭻ']
+    self.forward_mapping['ڇ'] = ['ﭾ', 'ﮀ', 'ﮁ', 'ﭿ']
+    self.forward_mapping['ڈ'] = ['ﮈ', '', '', 'ﮉ']
+    self.forward_mapping['ڌ'] = ['ﮄ', '', '', 'ﮅ']
+    self.forward_mapping['ڍ'] = ['ﮂ', '', '', 'ﮃ']
+    self.forward_mapping['ڎ'] = ['ﮆ', '', '', 'ﮇ']
+    self.forward_mapping['ڑ'] = ['ﮌ', '', '', 'ﮍ']
+    self.forward_mapping['ژ'] = ['ﮊ', '', '', 'ﮋ']
+    self.forward_mapping['ڤ'] = ['ﭪ', 'ﭬ', 'ﭭ', 'ﭫ']
+    self.forward_mapping['ڦ'] = ['ﭮ', 'ﭰ', 'ﭱ', 'ﭯ']
+    self.forward_mapping['ک'] = ['ﮎ', 'ﮐ', 'ﮑ', 'ﮏ']
+    self.forward_mapping['ڭ'] = ['ﯓ', 'ﯕ', 'ﯖ', 'ﯔ']
+    self.forward_mapping['گ'] = ['ﮒ', 'ﮔ', 'ﮕ', 'ﮓ']
+    self.forward_mapping['ڱ'] = ['ﮚ', 'ﮜ', 'ﮝ', 'ﮛ']
+    self.forward_mapping['ڳ'] = ['ﮖ', 'ﮘ', 'ﮙ', 'ﮗ']
+    self.forward_mapping['ں'] = ['ﮞ', '', '', 'ﮟ']
+    self.forward_mapping['ڻ'] = ['ﮠ', 'ﮢ', 'ﮣ', 'ﮡ']
+    self.forward_mapping['ھ'] = ['ﮪ', 'ﮬ', 'ﮭ', 'ﮫ']
+    self.forward_mapping['ۀ'] = ['ﮤ', '', '', 'ﮥ']
+    self.forward_mapping['ہ'] = ['ﮦ', 'ﮨ', 'ﮩ', 'ﮧ']
+    self.forward_mapping['ۅ'] = ['ﯠ', '', '', 'ﯡ']
+    self.forward_mapping['ۆ'] = ['ﯙ', '', '', 'ﯚ']
+    self.forward_mapping['ۇ'] = ['ﯗ', '', '', 'ﯘ']
+    self.forward_mapping['ۈ'] = ['ﯛ', '', '', 'ﯜ']
+    self.forward_mapping['ۉ'] = ['ﯢ', '', '', 'ﯣ']
+    self.forward_mapping['ۋ'] = ['ﯞ', '', '', 'ﯟ']
+    self.forward_mapping['ی'] = ['ﯼ', 'ﯾ', 'ﯿ', 'ﯽ']
+    self.forward_mapping['ې'] = ['ﯤ', 'ﯦ', 'ﯧ', 'ﯥ']
+    self.forward_mapping['ے'] = ['ﮮ', '', '', 'ﮯ']
+    self.forward_mapping['ۓ'] = ['ﮰ', '', '', 'ﮱ']
+    self.forward_mapping['\u200d'] = ['\u200d', '\u200d', '\u200d', '\u200d']
+    self.ligatures = ['لا', 'الله', 'لأ', 'لإ']
+    self.arabic_delimiters = ['،', 'ً', 'ّ', '»']
+    self.delimiters = [' ', ',', '-', '.', '"', ':']
